@@ -11,7 +11,7 @@ VA = M_Q + ":Question._validate_attempts"
 
 R.shape(
     "Question",
-    _attempts="int?", _validator="fn",
+    _attempts="int?", _validator="fn?", _default="none|bool|int|str|list[str]",
     # ghost: lines left on the input, interviewer calls so far, errors printed so far
     g_left="int", g_asks="int", g_errors="int",
 )
@@ -29,7 +29,7 @@ R.contract(
     VA,
     params={"interviewer": "fn", "io": "ref IO"},
     returns="any",
-    requires=["self._attempts is None or self._attempts >= 1", "self.g_left >= 0"],
+    requires=["self._attempts is None or self._attempts >= 1", "self.g_left >= 0", "self._validator is not None"],
     ensures=[
         # a valid answer ends the question; every earlier entry was invalid, consumed one attempt and printed one error
         "%s >= 1 and %s == %s - 1" % (ASKS, ERRS, ASKS),
@@ -100,3 +100,24 @@ def opaque_question(E, st, fn, args, kwargs):
     e.aux["abstract"] = True
     res.append(Out("raise", s2, e))
     return res
+
+
+# ---------------------------------------------------------------- non-interactive short-circuit (C18, C09)
+R.contract(
+    M_Q + ":Question._do_ask", params={"io": "ref IO"}, returns="none|bool|int|str|list[str]",
+    ensures=["self.g_asks == old(self.g_asks) + 1"], raises={"Exception": "True"},
+    modifies=["self.g_left", "self.g_asks"], assumed=True,
+    note="prompt + read + default + normaliser: one interview (its I/O is checked by the bounded tier)",
+)
+R.contract(
+    M_Q + ":Question.ask", params={"io": "ref IO"}, returns="any",
+    requires=["self._attempts is None or self._attempts >= 1", "self.g_left >= 0"],
+    ensures=[
+        # on a non-interactive input the question returns its default as it is -- nothing is asked, validated or printed
+        "implies(not io._input._interactive, result == self._default and self.g_asks == old(self.g_asks) "
+        "and self.g_errors == old(self.g_errors))",
+        "implies(io._input._interactive, self.g_asks >= old(self.g_asks) + 1)",
+    ],
+    raises={"Exception": "io._input._interactive"},
+    modifies=["self.g_left", "self.g_asks", "self.g_errors"],
+)
